@@ -46,6 +46,12 @@
 //     for an unconvertible resource), which is the documented contract of that plug-in interface.
 //   - SyncFailed / ParseFailed callbacks are counted, not judged.
 //
+// A third of the faulty cases are "blackouts": every type's first watch expires at once and is followed
+// by a run of List errors under a 1ns retry timeout, so that all caches regress to WaitForDatastore
+// together; half of those stop the syncer in the middle of the blackout (bounded pacing wait for the
+// regression to show; if it does not show the case continues normally) and judge only the two status
+// clauses, because Stop() makes the caches send their shutdown deletions while waiting.
+//
 // Thread schedules (syncer goroutines vs. the mutation driver) are real and not replayable; the
 // fault scripts, the mutation list and the per-type configuration are.  A watchdog firing while
 // waiting for "settled" or for the markers is Inconclusive.
@@ -1157,7 +1163,7 @@ func main() {
 		Level: "exploration",
 		Rule: "each case: 2..4 resource types (with/without the harness's 1->0..2-key update processor, SendDeletesOnConnFail on/off, optionally one type whose first List is held back), " +
 			"per-type PRNG fault scripts for List calls, Watch calls and watch streams, a PRNG list of 20..120 (thorough ..320) datastore mutations applied while the syncer runs, " +
-			"watch retry timeout 1ns or 1h; non-trivial = at least one fault was actually hit and the final datastore has more keys than types; distinct by fault script",
+			"watch retry timeout 1ns or 1h; a third of the faulty cases are 'blackouts' (every type loses its watch and then sees a run of List errors, half of them stop the syncer mid-blackout and judge only the status clauses); non-trivial = at least one fault was actually hit and the final datastore has more keys than types; distinct by fault script",
 		Assumptions: []string{
 			"the fake api.Client is a consistent single-store API server model (global revision, per-type event log, replay on Watch, bookmarks only when caught up); real etcd/Kubernetes backends are not run",
 			"thread interleavings between the syncer's goroutines and the mutation driver are real schedules and not replayable; the scripts and mutation lists are",
